@@ -430,7 +430,7 @@ def generate(target, registry):
             if exc in AUTO_ASSUMED and getattr(p, 'exc_from', None):
                 # propagated from a callee and outside every claim (see ASSUMPTIONS): not analysed
                 ex.assumed_paths = getattr(ex, 'assumed_paths', 0) + 1
-            elif exc == 'AssertionError':
+            elif exc == 'AssertionError' and 'AssertionError' not in c.raises:
                 ex.oblige(p, f'unreachable:AssertionError@{p.line}', BoolVal(False), p.line)
             elif exc in c.raises or _refusal_clause(c, exc):
                 # (the properties say that a bad call is refused, not with which exception class: an ordinary exception of a class
